@@ -347,8 +347,12 @@ impl St {
     }
     fn run_query(&self, q: &str) -> Vec<SearchResult> {
         let query = tokenize_query(q, &self.store.lang);
+        self.with_query(query, |r| self.store.search(r))
+    }
+    /// Hands `query` to `f` - from the store's retained query buffer, written in place, when this store re-uses one.
+    pub fn with_query<T>(&self, query: TextOwn, f: impl FnOnce(&TextRef) -> T) -> T {
         if !self.reuse_query_buffer {
-            return self.store.search(&query.to_ref());
+            return f(&query.to_ref());
         }
         let mut slot = match self.qbuf.lock() {
             Ok(g) => g,
@@ -369,7 +373,7 @@ impl St {
             None => *slot = Some(query),
         }
         let b = slot.as_ref().unwrap();
-        self.store.search(&b.to_ref())
+        f(&b.to_ref())
     }
     pub fn search(&self, q: &str) -> Hits {
         self.run_query(q).into_iter().map(|r| (r.id, r.title)).collect()
